@@ -8,8 +8,10 @@ import (
 	"bytes"
 	"encoding/csv"
 	"fmt"
+	"io"
 	"os"
 	"path/filepath"
+	"sort"
 	"strconv"
 	"strings"
 
@@ -133,6 +135,9 @@ type csvTable struct {
 	Geo      map[int][]string    // column index -> [summary][, ratio]  ("" when absent)
 	GeoLabel string
 	NRows    int
+	Headers  []string // the header records ("key: value", "" separators) printed before this table, in order
+	RowLine  []int    // 1-based output line of each data row
+	GeoLine  int      // 1-based output line of the summary row
 }
 
 // startCol in the CSV layout: label, then per column center, CI and, from the
@@ -158,17 +163,29 @@ func csvColOf(idx int) (exp, off int, ok bool) {
 func parseStatCSV(out string) ([]*csvTable, error) {
 	r := csv.NewReader(strings.NewReader(out))
 	r.FieldsPerRecord = -1
-	recs, err := r.ReadAll()
-	if err != nil {
-		return nil, err
+	var recs [][]string
+	var lineOf []int
+	for {
+		rec, err := r.Read()
+		if err == io.EOF {
+			break
+		}
+		if err != nil {
+			return nil, err
+		}
+		ln, _ := r.FieldPos(0)
+		recs = append(recs, rec)
+		lineOf = append(lineOf, ln)
 	}
 	var tables []*csvTable
 	running := map[string]string{}
 	i := 0
 	for i < len(recs) {
 		// header lines: single field "key: value" or "" separators
+		var hdrs []string
 		for i < len(recs) && len(recs[i]) == 1 && recs[i][0] != "geomean" {
 			h := recs[i][0]
+			hdrs = append(hdrs, h)
 			if h != "" {
 				k, v, ok := strings.Cut(h, ": ")
 				if !ok {
@@ -185,7 +202,7 @@ func parseStatCSV(out string) ([]*csvTable, error) {
 		if i >= len(recs) {
 			break
 		}
-		t := &csvTable{Key: map[string]string{}, Cells: map[[2]int][]string{}, Geo: map[int][]string{}}
+		t := &csvTable{Key: map[string]string{}, Cells: map[[2]int][]string{}, Geo: map[int][]string{}, Headers: hdrs}
 		for k, v := range running {
 			if v != "" {
 				t.Key[k] = v
@@ -231,6 +248,7 @@ func parseStatCSV(out string) ([]*csvTable, error) {
 			}
 			ri := len(t.Rows)
 			t.Rows = append(t.Rows, rec[0])
+			t.RowLine = append(t.RowLine, lineOf[i])
 			for exp := 0; exp < ncols; exp++ {
 				s := csvStartCol(exp)
 				if s >= len(rec) || rec[s] == "" {
@@ -256,6 +274,7 @@ func parseStatCSV(out string) ([]*csvTable, error) {
 			return nil, fmt.Errorf("csv: missing geomean row")
 		}
 		g := recs[i]
+		t.GeoLine = lineOf[i]
 		i++
 		t.GeoLabel = g[0]
 		for exp := 0; exp < ncols; exp++ {
@@ -482,3 +501,13 @@ func clipS(s string) string {
 	}
 	return s
 }
+
+func normWarning(msg string) string {
+	if rest, ok := strings.CutPrefix(msg, "benchmarks vary in "); ok {
+		ks := strings.Split(rest, ", ")
+		sort.Strings(ks)
+		return "benchmarks vary in " + strings.Join(ks, ", ")
+	}
+	return msg
+}
+
